@@ -111,6 +111,9 @@ def run(res, tier, rng, table_diffs=()):
         lines.append("[a, b, s]")
         cases.append(("\n".join(lines), None))
     byte_level(res, tier, rng)
+    from .. import gen2
+    cases += [(p, None) for p in gen2.shrinking_text_programs()]
+    cases += [(p, None) for p in gen2.fresh_result_programs()]
     rs = diff.eval_all([c[0] for c in cases], budget=100000)
     reported = 0
     for (src, exp), r in zip(cases, rs):
